@@ -34,6 +34,11 @@ def run(rep, tier):
         rep.call(kernel_sign, rep, prog, "C18.kernel-sign")
         rep.call(simd_rules.zero_extend, rep, prog, "C18.zero-extend")
         rep.call(simd_rules.conv_saturate, rep, prog, "C18.saturate")
+        if cfg.startswith("x86"):
+            # every pixel lane meets the coefficient of its own source position: a coefficient
+            # used twice and another dropped leaves the weights non-negative but their sum != 1
+            from ..engines import lanepair
+            rep.call(lanepair.pairing, rep, prog, "C18.lane-pairing")
         from ..engines import type_tables
         rep.call(type_tables.clip_table, rep, prog, "C18.clip-table")
         from ..engines import dispatch_rules
